@@ -28,6 +28,7 @@ import (
 
 type Cert struct {
 	Cn       string `json:"cn"`
+	First    string `json:"first"` // first CN attribute of subject/issuer: "same" (one CN only) | "X" | "Y"
 	Issuer   string `json:"issuer"`
 	Serial   string `json:"serial"`
 	Key      string `json:"key"`
@@ -39,6 +40,7 @@ type Cert struct {
 }
 
 type Entry struct {
+	First  string `json:"first"`
 	State  string `json:"state"`
 	Key    string `json:"key"`
 	Window string `json:"window"`
@@ -76,6 +78,20 @@ type world struct {
 }
 
 var authVersionOID = asn1.ObjectIdentifier{2, 23, 133, 2, 6}
+var oidCommonName = asn1.ObjectIdentifier{2, 5, 4, 3}
+
+// firstName resolves the abstract first-CN class to the concrete attribute value ("" = no additional attribute).
+func (w *world) firstName(class string) (string, error) {
+	switch class {
+	case "same", "-", "":
+		return "", nil
+	case "X":
+		return w.X.String(), nil
+	case "Y":
+		return w.Y.String(), nil
+	}
+	return "", fmt.Errorf("unknown first-CN class %q", class)
+}
 
 func derive(seed int64, idx int, what string) []byte {
 	h := sha256.New()
@@ -184,7 +200,10 @@ func usages(class string) ([]x509.ExtKeyUsage, error) {
 // makeCert builds a real DER certificate the way akash clients do (testutil/cert.go, x/cert/utils): ECDSA P-256,
 // subject CN = account address. issuerCN == "" means self-issued and self-signed; otherwise the certificate is
 // signed by a throw-away CA named issuerCN.
-func (w *world) makeCert(cn, issuerCN string, serial *big.Int, key *ecdsa.PrivateKey, window, usage string, ips []net.IP) ([]byte, error) {
+//
+// firstCN != "" puts an additional common-name attribute IN FRONT of cn: the subject (and, self-issued, the issuer)
+// then reads CN=firstCN, CN=cn. crypto/x509 reports the last one as Subject.CommonName, and so do the chain and the gateway.
+func (w *world) makeCert(cn, firstCN, issuerCN string, serial *big.Int, key *ecdsa.PrivateKey, window, usage string, ips []net.IP) ([]byte, error) {
 	nb, na, err := w.window(window)
 	if err != nil {
 		return nil, err
@@ -205,6 +224,13 @@ func (w *world) makeCert(cn, issuerCN string, serial *big.Int, key *ecdsa.Privat
 		ExtKeyUsage:           eku,
 		BasicConstraintsValid: true,
 		IPAddresses:           ips,
+	}
+	if firstCN != "" { // hand-built name: ExtraNames are emitted in order, after the (now absent) standard attributes
+		tmpl.Subject = pkix.Name{ExtraNames: []pkix.AttributeTypeAndValue{
+			{Type: oidCommonName, Value: firstCN},
+			{Type: oidCommonName, Value: cn},
+			{Type: authVersionOID, Value: "v0.0.1"},
+		}}
 	}
 	if issuerCN == "" {
 		return x509.CreateCertificate(rand.Reader, &tmpl, &tmpl, key.Public(), key)
@@ -248,7 +274,11 @@ func (w *world) publish(ch *chain, reg map[string]Entry) error {
 		if err != nil {
 			return err
 		}
-		der, err := w.makeCert(owner.String(), "", serial, key, e.Window, e.Usage, nil)
+		first, err := w.firstName(e.First)
+		if err != nil {
+			return err
+		}
+		der, err := w.makeCert(owner.String(), first, "", serial, key, e.Window, e.Usage, nil)
 		if err != nil {
 			return err
 		}
@@ -343,7 +373,11 @@ func (w *world) present(c Cert) ([][]byte, *ecdsa.PrivateKey, error) {
 		if priv, err = w.key(c.Key); err != nil {
 			return nil, nil, err
 		}
-		if leaf, err = w.makeCert(cn, issuer, serial, priv, c.Window, c.Usage, nil); err != nil {
+		first, err := w.firstName(c.First)
+		if err != nil {
+			return nil, nil, err
+		}
+		if leaf, err = w.makeCert(cn, first, issuer, serial, priv, c.Window, c.Usage, nil); err != nil {
 			return nil, nil, err
 		}
 	default:
@@ -358,7 +392,7 @@ func (w *world) present(c Cert) ([][]byte, *ecdsa.PrivateKey, error) {
 			if err != nil {
 				return nil, nil, err
 			}
-			if extra, err = w.makeCert(w.X.String(), "", big.NewInt(int64(1000+len(chain))), jk, "ok", "client", nil); err != nil {
+			if extra, err = w.makeCert(w.X.String(), "", "", big.NewInt(int64(1000+len(chain))), jk, "ok", "client", nil); err != nil {
 				return nil, nil, err
 			}
 		}
